@@ -113,7 +113,15 @@ func (s *EternalSource) Run() {
 
 		s.logger.Debug("calling sourceFromRefFactory", zap.Stringer("last_processed_block", lastProcessedBlockRef))
 		src := s.sourceFromRefFactory(lastProcessedBlockRef, handler)
-		s.currentSource = src // we'll lock you some day
+		// assigned under LockedInit: either Shutdown has not started yet and its OnTerminating callback
+		// will see (and stop) this source, or we are already terminating and the source is never run
+		if err := s.LockedInit(func() error {
+			s.currentSource = src
+			return nil
+		}); err != nil {
+			src.Shutdown(s.Err())
+			return
+		}
 		src.Run()
 
 		<-src.Terminating()
